@@ -836,7 +836,7 @@ func AdoptSession(p Persistence, c *Config) (client *Client, warn []error, fatal
 	// — MQTT Version 3.1.1, conformance statement MQTT-4.4.0-1
 	var publishAtLeastOnceKeys, publishExactlyOnceKeys, publishReleaseKeys []uint
 	for _, key := range keys {
-		if key == clientIDKey || key&remoteIDKeyFlag != 0 {
+		if key == clientIDKey {
 			continue
 		}
 		value, err := p.Load(key)
@@ -856,10 +856,13 @@ func AdoptSession(p Persistence, c *Config) (client *Client, warn []error, fatal
 			continue
 		}
 
-		storeOrderPerKey[key] = storageSeqNo
 		if storageSeqNo > storeOrderMax {
 			storeOrderMax = storageSeqNo
 		}
+		if key&remoteIDKeyFlag != 0 {
+			continue // inbound marker is valid
+		}
+		storeOrderPerKey[key] = storageSeqNo
 
 		switch packet[0] >> 4 {
 		case typePUBLISH:
